@@ -23,7 +23,22 @@ pub fn read_line_with_eol<'buf, T: BufRead>(
     match eol {
         // read_line is more optimized/safe than read_until for strings
         EOL::Newline => reader.read_line(buffer),
-        EOL::Zero => unsafe { reader.read_until(eol as u8, buffer.as_mut_vec()) },
+        EOL::Zero => {
+            // same contract as read_line: what we read must be valid UTF-8
+            // (a String holding anything else would be undefined behaviour)
+            let mut bytes = std::mem::take(buffer).into_bytes();
+            let res = reader.read_until(eol as u8, &mut bytes);
+            match String::from_utf8(bytes) {
+                Ok(s) => {
+                    *buffer = s;
+                    res
+                }
+                Err(_) => Err(std::io::Error::new(
+                    std::io::ErrorKind::InvalidData,
+                    "stream did not contain valid UTF-8",
+                )),
+            }
+        }
     }
     .map(|u| if u == 0 { None } else { Some(buffer) })
     .transpose()
